@@ -111,6 +111,22 @@ Theorem C20_restore_latest :
 Proof. exact restore_latest. Qed.
 Print Assumptions C20_restore_latest.
 
+(** over the full training-state record: a restore into ANY fresh target returns step, params,
+    batch_stats and opt_state of the last saved state, and the next training step
+    ([apply_gradients], arbitrary) equals that of the uninterrupted run *)
+Theorem C20_restore_full_state :
+  forall (P B O G : Type) (apply_gradients : tstate P B O -> G -> tstate P B O)
+         (vs : list (tstate P B O)) (v0 : tstate P B O) (d : option (store (tstate P B O)))
+         (fresh : tstate P B O) (ok : bool),
+    increasing (@ts_step P B O) v0 vs -> dir_above (ts_step v0) d ->
+    exists r, restore fresh (saves (@ts_step P B O) (v0 :: vs) d) ok = Restored r /\
+      let s := last vs v0 in
+      ts_step r = ts_step s /\ ts_params r = ts_params s /\
+      ts_batch_stats r = ts_batch_stats s /\ ts_opt_state r = ts_opt_state s /\
+      forall g, apply_gradients r g = apply_gradients s g.
+Proof. exact restore_full_state. Qed.
+Print Assumptions C20_restore_full_state.
+
 Theorem C20_restore_missing :
   forall (S : Type) (input : S) (ok : bool),
     restore input None ok = (if ok then Restored input else FileNotFound S) /\
